@@ -129,7 +129,8 @@ type World struct {
 	Uptime []time.Duration
 }
 
-var dts = []time.Duration{time.Second, 61 * time.Second, 3601 * time.Second}
+// the middle step carries a fractional second (and one odd nanosecond): emission is rate x elapsed time with nanosecond resolution
+var dts = []time.Duration{time.Second, 61*time.Second + 500*time.Millisecond + time.Nanosecond, 3601 * time.Second}
 
 var stores = []string{"concentratedliquidity", "bank", "acc", "poolmanager", "lockup", "incentives", "twap", "protorev", "txfees", "poolincentives", "epochs", "mint", "distribution", "gamm", "superfluid"}
 
